@@ -4,9 +4,9 @@ import (
 	"archive/zip"
 	"bytes"
 	"compress/flate"
-	"hash/crc32"
 	"errors"
 	"fmt"
+	"hash/crc32"
 	"io"
 	"os"
 	"regexp"
